@@ -38,7 +38,11 @@ StatW(t, o, mode, data, nulls) ==
          [] mode = "both" -> [has |-> TRUE, useOld |-> pair, useNew |-> pair, hasNulls |-> TRUE, nulls |-> nulls, min |-> m.min, max |-> m.max]
 
 Sty == [longField |-> FALSE, longList |-> FALSE, padVarint |-> FALSE, falseByte |-> 2]
+\* even layouts nest the decoy column in a REQUIRED group (levels unchanged): leaf index + 1 is then no longer the
+\* schema element index of a column, so a reader that confuses the two compares with the wrong type
+Nested(k) == k % 2 = 0
 LeafK == [type |-> 1, tlen |-> 0, maxDef |-> 0, maxRep |-> 0, path |-> <<<<107>>>>]
+LeafKOf(k) == IF Nested(k) THEN [LeafK EXCEPT !.path = <<<<103>>, <<107>>>>] ELSE LeafK
 LeafV(t) == [type |-> t, tlen |-> TLen(t), maxDef |-> 1, maxRep |-> 0, path |-> <<<<118>>>>]
 \* decoy values: 1000 + g (so a reader that looks at the wrong column or group answers differently)
 KVal(g) == <<(232 + g) % 256, 3, 0, 0>>
@@ -57,12 +61,13 @@ WStat(cell) == [has |-> cell.st.has, useOld |-> cell.st.useOld, useNew |-> cell.
                 nulls |-> cell.st.nulls, min |-> cell.st.min, max |-> cell.st.max]
 
 Desc(t, k, mode, o) ==
-    [elements |-> << Root(2), Leaf(<<107>>, 1, 0, 0), Leaf(<<118>>, t, 1, TLen(t)) >>,
+    [elements |-> IF Nested(k) THEN << Root(2), Group(<<103>>, 0, 1), Leaf(<<107>>, 1, 0, 0), Leaf(<<118>>, t, 1, TLen(t)) >>
+                  ELSE << Root(2), Leaf(<<107>>, 1, 0, 0), Leaf(<<118>>, t, 1, TLen(t)) >>,
      createdBy |-> <<114, 101, 102>>, extras |-> FALSE, sty |-> Sty,
      rgs |-> [g \in 1..Len(RgLayout(k)) |->
                 LET n == Len(Rows(t, k, g))
                 IN [numRows |-> n,
-                    cols |-> << MkChunk(LeafK, [defs |-> [i \in 1..n |-> 0], reps |-> [i \in 1..n |-> 0], vals |-> CellK(t, k, g).data],
+                    cols |-> << MkChunk(LeafKOf(k), [defs |-> [i \in 1..n |-> 0], reps |-> [i \in 1..n |-> 0], vals |-> CellK(t, k, g).data],
                                         <<n>>, [DefaultOpt EXCEPT !.stats = WStat(CellK(t, k, g))]),
                                 MkChunk(LeafV(t), [defs |-> [i \in 1..n |-> IF Rows(t, k, g)[i] = 0 THEN 0 ELSE 1],
                                                    reps |-> [i \in 1..n |-> 0], vals |-> DataOf(t, k, g)],
